@@ -599,17 +599,6 @@ func sortInts(a []int) {
 	}
 }
 
-// anyTyped: some node of p is declared with an interface-typed (any) output
-func anyTyped(p *Prog) bool {
-	found := false
-	p.walk(func(q *Prog) {
-		if q.Op == "node" && q.N != nil && q.N.AnyOut {
-			found = true
-		}
-	})
-	return found
-}
-
 // genSeq: nStages stages from a value of type tin (guaranteed keys) to one of type tout.
 // altStart: the first stage must have a single entry node and must not be a branch.
 // singleIn: the value entering the sequence comes from exactly one node (a branch can only
@@ -620,7 +609,6 @@ func (g *gctx) genSeq(tin bool, keys []int, tout bool, depth int, nStages int, a
 	afterLoop := false
 	// untyped: the value comes out of passthrough nodes whose type nothing to their left determines (a
 	// keyed one that picks its value out of a map, plain ones after it): the next node must bring the type
-	anyVal := false      // the value may come from an any-typed node (directly or through plain passthrough nodes)
 	untyped := depth > 0 // (a plain passthrough node that starts a branch alternative is typed by what follows it)
 	for i := 0; i < nStages; i++ {
 		last := i == nStages-1
@@ -643,19 +631,17 @@ func (g *gctx) genSeq(tin bool, keys []int, tout bool, depth int, nStages int, a
 			}
 		}
 		switch {
-		case roll >= 9 && roll <= 10 && single && !afterLoop && g.inject == "" && (!first || depth == 0) && !untyped && (len(pickable) > 0 || g.r.Chance(1, 3)):
+		case roll >= 9 && roll <= 10 && single && !afterLoop && g.inject == "" && (!first || depth == 0) && (len(pickable) > 0 || !untyped && g.r.Chance(1, 3)):
 			// AddPassthroughNode with a key (round 6). WithInputKey: the node picks its value out of the map it
 			// receives and hands it on; its type is inferred from its successor (a node, a branch condition, the kids
 			// of a fan-out, END, plain passthrough nodes before those). WithOutputKey: it puts what it receives
 			// under a key; its type is inferred from its predecessor. Model: SSub w SId.
 			var k int
-			// (not behind an any-typed node: the run-time check of that edge would ask the passthrough node for its
-			// converter before its type is known - AddEdge panics, nothing is compiled, no paradigm to compare)
-			if anyVal {
-				pickable = nil
-			}
-			// (nor behind a passthrough node whose own type is still unknown: the same panic in AddEdge)
-			pick := len(pickable) > 0 && g.r.Chance(3, 4)
+			// Since /repo 0136457 a keyed passthrough node may also stand behind an any-typed node (the run-time
+			// check of that edge asks the passthrough node for its converter before its type is known) and behind a
+			// passthrough node whose own type is still unknown (it takes its type over): both used to panic in AddEdge.
+			// An output-keyed one takes its type from its predecessor, so it cannot follow an untyped one.
+			pick := len(pickable) > 0 && (untyped || g.r.Chance(3, 4))
 			if pick {
 				k = pickable[g.r.Intn(len(pickable))]
 				if last && (g.kmap[k] != nil) != tout {
@@ -679,7 +665,7 @@ func (g *gctx) genSeq(tin bool, keys []int, tout bool, depth int, nStages int, a
 				wantT = pp.PassMap
 				nowUntyped = true
 				st = stageOut{pp, pkeys, true, false}
-			case !last || tout:
+			case !untyped && (!last || tout):
 				g.budget--
 				k = g.key()
 				pp := &Prog{Op: "pass", ID: g.id(), PassMap: curT, W: &Wrap{Out: &k}}
@@ -742,9 +728,6 @@ func (g *gctx) genSeq(tin bool, keys []int, tout bool, depth int, nStages int, a
 		curT, curKeys, single = wantT, st.keys, st.single
 		afterLoop = isLoop || st.deferred
 		untyped = nowUntyped
-		if !(st.p.Op == "pass" && (st.p.W == nil || st.p.W.In == nil && st.p.W.Out == nil)) {
-			anyVal = anyTyped(st.p)
-		}
 		if g.budget <= 0 && !last {
 			// out of budget: close the sequence with a plain node of the right type
 			if curT != tout || true {
